@@ -234,7 +234,7 @@ def match(toks, i):
 # stmt:  ("skip",) ("seq", s, t) ("if", c, s, t) ("assign", name, e) ("call", name) ("break",) ("continue",) ("return", e)
 #        ("loop", s)   (for/while with its body; header dropped)
 
-TYPEWORDS = {"int", "double", "LDBLE", "bool", "size_t", "class", "struct", "const", "unsigned", "long", "char", "float",
+TYPEWORDS = {"void", "int", "double", "LDBLE", "bool", "size_t", "class", "struct", "const", "unsigned", "long", "char", "float",
              "cxxPPassemblageComp", "cxxPPassemblage", "cxxSScomp", "cxxSS", "cxxSurfaceCharge", "cxxSurfaceComp",
              "cxxExchComp", "cxxGasPhase", "std", "phase", "master", "rxn_token", "unknown"}
 PRINT_CALLS = {"output_msg", "log_msg", "sformatf", "status", "screen_msg", "assert"}
@@ -527,9 +527,12 @@ class Parser:
                     self.eat()
                     init = self.e_add_or_cond()
                     if isptr:
-                        if init[0] != "var":
+                        if init[0] == "num" and init[1] == 0:
+                            out.append(("assign", name, init))     # T *p = NULL;  (assigned later)
+                        elif init[0] != "var":
                             raise Refuse("pointer local %s initialised by a non-path" % name)
-                        self.aliases[name] = init[1]
+                        else:
+                            self.aliases[name] = init[1]
                     else:
                         out.append(("assign", name, init))
                 if self.at(","):
